@@ -522,31 +522,49 @@ func c07Callbacks(rep *Report, w *World, full bool) {
 
 // c07RefundPaths: acknowledgement / timeout of packets SENT by Noble, on the full stack vs the reference stack.
 func c07RefundPaths(rep *Report, w *World) {
-	for _, sender := range []sdk.AccAddress{w.Alice, w.Orb, w.Bob} {
-		for _, memo := range []string{"", Memo(w.FwdInternal(w.Bob), nil)} {
-			data := transfertypes.FungibleTokenPacketData{Denom: denomUSDC, Amount: "123", Sender: sender.String(), Receiver: defaultSender, Memo: memo}
-			pkt := channeltypes.NewPacket(data.GetBytes(), 1, "transfer", "channel-0", "transfer", "channel-7", clienttypes.NewHeight(1, 1000), 0)
-			acks := [][]byte{channeltypes.NewResultAcknowledgement([]byte{1}).Acknowledgement(), channeltypes.NewErrorAcknowledgement(fmt.Errorf("boom")).Acknowledgement(), []byte("garbage")}
-			for ai := 0; ai <= len(acks); ai++ {
-				a, b := Branch(w.Ctx), Branch(w.Ctx)
-				var ea, eb error
-				name := "OnTimeoutPacket"
-				if ai < len(acks) {
-					name = fmt.Sprintf("OnAcknowledgementPacket(ack#%d)", ai)
-					ea = w.Stack.OnAcknowledgementPacket(a, pkt, acks[ai], nil)
-					eb = w.Ref.OnAcknowledgementPacket(b, pkt, acks[ai], nil)
-				} else {
-					ea = w.Stack.OnTimeoutPacket(a, pkt, nil)
-					eb = w.Ref.OnTimeoutPacket(b, pkt, nil)
-				}
-				rep.Count("evaluations", 1)
-				sig := fmt.Sprintf("%s sender=%s memo=%v", name, w.roleOf(sender.String()), memo != "")
-				evOK, why := maskedEqual(convEvents(a.EventManager().Events()), convEvents(b.EventManager().Events()), nil, nil)
-				if fmt.Sprint(ea) != fmt.Sprint(eb) || w.StateKey(a) != w.StateKey(b) || !evOK {
-					rep.Violate(Violation{Kind: "refund-path-differs", Sig: sig, Replay: mustJSON(sig), What: fmt.Sprintf("%s differs from the wrapped application: err %v vs %v; %s; stores %v", sig, ea, eb, why, w.DiffStores(a, b))})
-				} else {
-					rep.Outcome("refund-path-identical")
-					rep.Distinct("refund:" + sig)
+	type coin struct{ denom, amount string }
+	coins := []coin{{denomUSDC, "123"}, {denomUSDC, "0"}, {"transfer/channel-0/uatom", "7"}, {"uother", "1"}, {"!bad", "1"}, {denomUSDC, "340282366920938463463374607431768211456"}}
+	senders := []string{w.Alice.String(), w.Orb.String(), w.Bob.String(), strings.ToUpper(w.Orb.String()), "not-an-address"}
+	memos := []string{"", Memo(w.FwdInternal(w.Bob), nil), "{\"orbiter\":"}
+	acks := [][]byte{channeltypes.NewResultAcknowledgement([]byte{1}).Acknowledgement(), channeltypes.NewErrorAcknowledgement(fmt.Errorf("boom")).Acknowledgement(), []byte("garbage")}
+	for _, ch := range []string{"channel-0", "channel-1"} {
+		for _, c := range coins {
+			for _, sender := range senders {
+				for _, memo := range memos {
+					data := transfertypes.FungibleTokenPacketData{Denom: c.denom, Amount: c.amount, Sender: sender, Receiver: defaultSender, Memo: memo}
+					pkt := channeltypes.NewPacket(data.GetBytes(), 1, "transfer", ch, "transfer", "channel-7", clienttypes.NewHeight(1, 1000), 0)
+					for ai := 0; ai <= len(acks); ai++ {
+						a, b := Branch(w.Ctx), Branch(w.Ctx)
+						name := "OnTimeoutPacket"
+						call := func(m porttypes.IBCModule, ctx sdk.Context) (err error, pan string) {
+							defer func() {
+								if r := recover(); r != nil {
+									pan = trunc(fmt.Sprint(r), 120)
+								}
+							}()
+							if ai < len(acks) {
+								return m.OnAcknowledgementPacket(ctx, pkt, acks[ai], nil), ""
+							}
+							return m.OnTimeoutPacket(ctx, pkt, nil), ""
+						}
+						if ai < len(acks) {
+							name = fmt.Sprintf("OnAcknowledgementPacket(ack#%d)", ai)
+						}
+						ea, pa := call(w.Stack, a)
+						eb, pb := call(w.Ref, b)
+						rep.Count("evaluations", 1)
+						sig := fmt.Sprintf("%s %s sender=%s coin=%s%s memo=%d", name, ch, w.roleOf(sender), c.amount, c.denom, len(memo))
+						evOK, why := maskedEqual(convEvents(a.EventManager().Events()), convEvents(b.EventManager().Events()), nil, nil)
+						if fmt.Sprint(ea) != fmt.Sprint(eb) || (pa != "") != (pb != "") || w.StateKey(a) != w.StateKey(b) || !evOK {
+							rep.Violate(Violation{Kind: "refund-path-differs", Sig: sig, Replay: mustJSON(sig), What: fmt.Sprintf("%s differs from the wrapped application: err %v vs %v; panic %q vs %q; %s; stores %v", sig, ea, eb, pa, pb, why, w.DiffStores(a, b))})
+						} else {
+							rep.Outcome("refund-path-identical")
+							if eb == nil && pb == "" {
+								rep.Outcome("refund-path-identical(executed)")
+							}
+							rep.Distinct("refund:" + sig)
+						}
+					}
 				}
 			}
 		}
